@@ -232,6 +232,29 @@ CHECKS = {
     note=TRUSTED + "Sandwiches: a score tie justifies either choice; for equal starts 'overlap' between two kept hits is demanded only "
          "under every reading; results are compared as bags. Not covered: the HMMER search, filter_nonterminal_docking_domains. One "
          "known finding remains (P14: a hit whose replacer is itself dropped; needs a non-greedy pass)."),
+ "C10": dict(
+    text=("Persist.tla (over RecordSM) states the abstract record (sequence, topology, every feature [type, location, payload], "
+          "numbered areas with resolved cross references). A GenBank / JSON / results-file round trip is a stuttering step on it, and "
+          "the first output is a fixed point. Persist_MC's pipeline-ordered RecordSM states over three universes are built as real "
+          "records from a parsed GenBank skeleton through the secmet API with a fixed payload table (notes, codon_start, gene "
+          "functions, sec_met, NRPS/PKS domains + module, PFAM/GO, motifs, prepeptide, sideloaded areas, T2PKS, SMILES). Each state is "
+          "taken through to_biopython -> SeqIO -> from_biopython, record_to_json -> record_from_json and AntismashResults.write_to_file "
+          "-> from_file, twice each. Persist_Trace (TLC) decides 'same abstract record' clause by clause and 'same bytes the second "
+          "time'. Seeded random universes with pipeline-ordered and arbitrary RecordSM histories are added on top."),
+    design="6/C10", technique="TLA+ record-persistence spec (Persist.tla on RecordSM) + TLC generator/model check + replay on real records + TLC trace validation",
+    note=TRUSTED + "Fidelity is relative to the payload table. Locations are compared as strand + ordered bases. Links derived from "
+         "coordinates belong to C08; sub-gene features on origin-spanning genes to C09. One known finding class remains (whole-record "
+         "vs origin-crossing candidates swap numbers on reload on rings)."),
+ "C12": dict(
+    text=("Persist.tla Expected/ExtractFailed define the faithful region extract (region sequence, exactly the contained features "
+          "shifted, areas renumbered from 1 with resolved cross references, one region with the same members, parent unchanged). "
+          "Persist_MC checks the expectation is well-formed, base-preserving, equal to Ring!Shift, one component and self-accepted, plus "
+          "a wrong-sign negative control. Every region of every generated real record is written with Region.write_to_genbank (one "
+          "shared Biopython record), parsed and loaded. Persist_Trace decides sequence, contained features, numbering (reloaded and "
+          "raw), resolved cross references, one region with the same members, base digests, and the unchanged full record."),
+    design="6/C12", technique="TLA+ record-persistence spec (Persist.tla on RecordSM) + TLC generator/model check + replay on real records + TLC trace validation",
+    note=TRUSTED + "Records are pipeline-shaped. contig_edge and the topology of the extract are not judged. One known finding class "
+         "remains (ring candidates swapping numbers, mirrored from C10)."),
 }
 CHECKS_END = None
 NOT_BUILT = "not built yet (work in progress, see DESIGN.md section 10 build order)"
